@@ -320,6 +320,16 @@ pub fn fail_injection<S: USet>(e: &mut Eng<S>, hists: usize, steps: usize) {
             let _ = alloc::under_test(|| probe(&mut c0, kind, v));
             let nalloc = alloc::ZEROED_ALLOCS.load(SeqCst);
             drop(c0);
+            // draws the unfaulted run consumed (scripted build): the model needs them to run the whole insert
+            #[cfg(feature = "rand")]
+            let used_draws: Vec<u64> = {
+                let left = tinyset::verif_rand::clear();
+                draws[..draws.len() - left.min(draws.len())].to_vec()
+            };
+            #[cfg(not(feature = "rand"))]
+            let used_draws: Vec<u64> = vec![];
+            // what the set holds after each failed request of an insert, for the model's failure states
+            let mut after_fail: Vec<String> = vec![];
             for k in 0..nalloc.min(6) {
                 let (lb0, _) = alloc::live();
                 let mut c = e.slots[0].as_ref().unwrap().clone();
@@ -343,6 +353,7 @@ pub fn fail_injection<S: USet>(e: &mut Eng<S>, hists: usize, steps: usize) {
                     true => {
                         e.bump("fail:panicked");
                         let ca = repr_string(&c);
+                        after_fail.push(ca.clone());
                         let same_members = {
                             let a: BTreeSet<u64> = c.items().into_iter().collect();
                             a == e.oracle[0] && c.len() == e.oracle[0].len()
@@ -389,6 +400,25 @@ pub fn fail_injection<S: USet>(e: &mut Eng<S>, hists: usize, steps: usize) {
             tinyset::verif_rand::clear();
             #[cfg(not(feature = "rand"))]
             tinyset::verif_rand::set_seed(seed0);
+            if kind <= 6 && !S::TYPED && nalloc <= 6 && after_fail.len() as u64 == nalloc as u64 {
+                let mut l = format!("flt 0 {} {}", S::norm(v), nalloc);
+                if e.mode == crate::engine::Mode::Script {
+                    l.push_str(" D");
+                    for d in &used_draws {
+                        l.push_str(&format!(" {}", d));
+                    }
+                }
+                l.push_str(" R");
+                for (k, r) in after_fail.iter().enumerate() {
+                    if k > 0 {
+                        l.push_str(" |");
+                    }
+                    l.push(' ');
+                    l.push_str(r);
+                }
+                e.emit(&l);
+                e.bump(&format!("flt:requests:{}", nalloc));
+            }
             // the real step, recorded in the trace
             match kind {
                 0..=6 => e.op_ins(0, v),
